@@ -96,7 +96,8 @@ struct Peer {
 	int cur_x = -1;
 	unsigned recv_calls = 0, send_calls = 0; // within current exchange
 	J faults; // transport faults of the current exchange
-	bool any_pdu_received = false; // by a correct client on this connection
+	bool any_pdu_received = false;
+	bool hdr_seen = false; // the client has received at least one complete PDU header on this connection // by a correct client on this connection
 	uint64_t opened_ns = 0;
 	// ---- cache
 	uint16_t session = 1;
